@@ -162,6 +162,14 @@ func (h *c32Hist) settle() []c32Member {
 				c32Unique(h.rep, n.Name, got, h.hist)
 				if c32CfgStr(got) == c32CfgStr(want) {
 					h.rep.Count("follower-view-checked")
+					// the node's own answer to "am I a voter?" is the role the configuration gives it
+					if m := h.find(got, n.Name); m != nil {
+						if v, verr := n.S.IsVoter(); verr == nil && v != m.voter {
+							h.rep.Fail("node-own-role-view-differs-from-configuration",
+								fmt.Sprintf("node %s is %v in the configuration it holds (%s) but its IsVoter() says %v", n.Name, map[bool]string{true: "voter", false: "nonvoter"}[m.voter], c32Human(got), v),
+								map[string]interface{}{"history": h.hist, "node": n.Name})
+						}
+					}
 					break
 				}
 			}
